@@ -4,6 +4,6 @@ VARIABLE done
 CInit == done = FALSE /\ tgt = [form |-> "star", t |-> <<>>]
 CNext == done = FALSE /\ UNCHANGED tgt
          /\ done' = ndJsonSerialize(IOEnv.CASES_OUT,
-                       SetToSeq({x \in [form : Forms, t : Targets(MaxLen)] : x.form = "star" => x.t = <<>>}))
+                       SetToSeq({x \in [form : Forms, t : Targets(MaxLen)] : WellFormed(x)}))
 CSpec == CInit /\ [][CNext]_<<done, tgt>>
 =============================================================================
